@@ -189,6 +189,16 @@ def run(ctx):
                       label="(B) download pipeline x scripted peers")
     ctx.tlc_must_hold("net", "Sync", cfg="MC_SyncB_depth.cfg" if q else "MC_SyncB_depth_thorough.cfg", workers=w, timeout=900,
                       label="(B) deep pipeline: 4-5 single-block batches, queues full behind every fault; download returns")
+    ctx.tlc_must_hold("net", "Sync", cfg="MC_SyncA_liar.cfg", workers=w, timeout=600,
+                      label="(A) ancestor search against a peer that answers every probe as it likes")
+    ctx.tlc_must_hold("net", "Sync", cfg="MC_SyncB_slack.cfg", workers=w, timeout=900,
+                      label="(B) download from one below the true ancestor: known blocks are ignored")
+    # non-vacuity of BTerminates: with a decoder that does not listen to the cancel while blocked the property must FAIL
+    r = ctx.tlc("net", "Sync", cfg="MC_SyncB_nolisten.cfg", workers=w, timeout=900, count=False,
+                label="(B) NEGATIVE: decoder ignores the cancel => download does not return")
+    if r.timeout or "BTerminates was violated" not in r.out:
+        raise Infra("BTerminates is vacuous: the negative configuration MC_SyncB_nolisten.cfg did not violate it (%s)" % (r.error or "passed"))
+    ctx.cov["liveness_negative_config"] = "MC_SyncB_nolisten.cfg violates BTerminates as it must (%d states)" % r.distinct
     ctx.tlc_must_hold("net", "Sync", cfg="MC_SyncC.cfg", workers=w, timeout=300, label="(C) message codes x classes")
 
     drifts = []
@@ -240,6 +250,8 @@ def run(ctx):
         ctx.cov["download_multi_batch"] = sum(1 for c in cases if c["fetches"] >= 3)
         ctx.cov["download_handler_error_with_full_pipeline_ms"] = [c["elapsedMs"] for c in cases if c["fault"] == "flood"]
         ctx.cov["download_exact_score_ties"] = [(c["label"], c["converged"]) for c in cases if c["label"].startswith("tie")]
+        ctx.cov["download_lying_id_answers"] = sorted({c["fault"] for c in cases if c["fault"].startswith("liar:")})
+        ctx.cov["download_locals_with_side_branch"] = sum(1 for c in cases if "side" in c["label"])
         ctx.cov["download_blocks_over_reply_budget"] = [c["label"] for c in cases if c["label"].startswith("huge")]
         ctx.cov["handler_streams_with_nil_markers"] = sum(1 for c in cases if c["peer"] == "stream" and c["nilMarkersQueued"] > 0)
         ctx.cov["download_nil_markers_queued_by_real_decoder"] = sum(c["nilMarkersQueued"] for c in cases if c["label"].startswith("throttle"))
